@@ -77,7 +77,7 @@ def unit_golden(a):
 def replay(case, stats):
     if case["sub"] == "golden":
         return pc.replay_golden(case, proj_c08, WHAT)
-    if case["sub"] == "text":
+    if case["sub"] in ("text", "rawtext"):
         from . import textdocs
         return textdocs.check_text(case, stats, "C08")
     if case["sub"] == "reuse":
